@@ -830,7 +830,7 @@ def churn_history(rng, fixed=None):
     v = -1
     if isvar:
         ops.append(('def_var', 0, b'v', 4, [])); v = 0
-    k = rng.range(4, 8)
+    k = rng.range(5 if fixed is not None else 4, 8)
     live = pool[:k]; spare = pool[k:]
     for i, n in enumerate(live):
         ops.append(('put_att', 0, v, n, 4, [i, i + 1]))
